@@ -1,19 +1,19 @@
 SPECIFICATION Spec
 CONSTANTS
-  Kinds <- KindsCore
-  CleanupIds = {"c1", "c2"}
+  Kinds <- Kinds4
+  CleanupIds = {"c1"}
   DetailNames <- NamesSmall
   Mismatches = {"m1"}
   Attrs = {"a_exist"}
   Fixtures = {"f_ok"}
   MaxFaults = 2
   MaxSteps = 2
-  MaxTotalSteps = 3
+  MaxTotalSteps = 1
   MaxRuns = 2
-  AllowDecor = TRUE
+  AllowDecor = FALSE
   OnExcChoices = {TRUE, FALSE}
-  PreForceChoices = {FALSE}
-  XfDecChoices = {FALSE}
+  PreForceChoices = {TRUE, FALSE}
+  XfDecChoices = {TRUE}
   StepOps = {"upcall", "addCleanup", "addDetail", "expect", "patch", "useFixture"}
   AllowMulti = FALSE
   Variant = "asRequired"
